@@ -66,8 +66,9 @@ Proof. exact token_runs_only_bound. Qed.
    "ab" then "ac" then ESC "a" arriving in three reads *)
 Example C03_loop_example :
   let t := [([97], ([112; 49], false)); ([97; 98], ([112; 50], false)); ([225], ([112; 51], false))] in
-  match loop 100 true t (fun _ => true) (init_state false) [Chunk [97]; Chunk [98; 97; 99]; Chunk [27; 97]] with
-  | Waiting st => map fst (l_log st)
+  match loop probe_log (probe_exec (fun _ => true)) 100 true t (init_state probe_log false [])
+             [Chunk [97]; Chunk [98; 97; 99]; Chunk [27; 97]] with
+  | Waiting _ st => map fst (l_app _ st)
   | _ => []
   end = [[112; 50]; [112; 49]; [112; 51]].
 Proof. vm_compute. reflexivity. Qed.
